@@ -61,7 +61,7 @@ fn dry_verify_pure(sig: &Sig, m: &[u8], pk: &Pk) -> Result<bool, String> {
         let a = crypto_sign_verify_detached(sig, m, pk).is_ok();
         let mut sm = sig.to_vec();
         sm.extend_from_slice(m);
-        let mut out = vec![0u8; m.len()];
+        let mut out = vec![0xC3u8; m.len()];
         let b = crypto_sign_open(&mut out, &sm, pk).is_ok() && out == m;
         let s: SignedMessage<StackByteArray<64>, Vec<u8>> = SignedMessage::from_bytes(&sm).unwrap();
         let c = s.verify(&StackByteArray::<32>::from(pk)).is_ok();
@@ -128,19 +128,19 @@ fn check_positive(seed: &[u8; 32], m: &[u8]) -> Option<(String, String)> {
             return Some(("keypair-differs".into(), "seeded key pair differs from libsodium".into()));
         }
         // pure detached
-        let mut sig = [0u8; 64];
+        let mut sig = [0xC3u8; 64];
         crypto_sign_detached(&mut sig, m, &sk).unwrap();
         let want = sodium::sign_detached(m, &ssk);
         if sig != want {
             return Some(("detached-differs".into(), format!("detached signature differs from libsodium: {} vs {}", hx(&sig), hx(&want))));
         }
-        let mut sig2 = [0u8; 64];
+        let mut sig2 = [0xC3u8; 64];
         crypto_sign_detached(&mut sig2, m, &sk).unwrap();
         if sig2 != sig {
             return Some(("nondeterministic".into(), "signing twice gave different signatures".into()));
         }
         // combined
-        let mut sm = vec![0u8; m.len() + 64];
+        let mut sm = vec![0xC3u8; m.len() + 64];
         crypto_sign(&mut sm, m, &sk).unwrap();
         if sm != sodium::sign_combined(m, &ssk) {
             return Some(("combined-differs".into(), "combined signed message differs from libsodium".into()));
@@ -162,7 +162,7 @@ fn check_positive(seed: &[u8; 32], m: &[u8]) -> Option<(String, String)> {
         // pre-hashed incremental
         let mut st = crypto_sign_init();
         crypto_sign_update(&mut st, m);
-        let mut psig = [0u8; 64];
+        let mut psig = [0xC3u8; 64];
         crypto_sign_final_create(st, &mut psig, &sk).unwrap();
         let pwant = sodium::sign_ph_create(&[m], &ssk);
         if psig != pwant {
@@ -181,7 +181,7 @@ fn check_positive(seed: &[u8; 32], m: &[u8]) -> Option<(String, String)> {
         if dry_verify_ph(&psig, m, &pk) != Ok(true) || !sodium::sign_ph_verify(&[m], &psig, &pk) {
             return Some(("own-signature-rejected".into(), "genuine pre-hashed signature does not verify".into()));
         }
-        let mut opened = vec![0u8; m.len()];
+        let mut opened = vec![0xC3u8; m.len()];
         if crypto_sign_open(&mut opened, &sm, &pk).is_err() || opened != m || sodium::sign_open(&sm, &pk).as_deref() != Some(m) {
             return Some(("own-signature-rejected".into(), "genuine combined message does not open".into()));
         }
@@ -223,12 +223,12 @@ pub fn run() -> i32 {
             if ci == 3 && (lens[li] % 16 == 1 || lens[li] < 4) {
                 // dryoc's own outputs for the independent Python RFC 8032 reference
                 let (pk, sk) = crypto_sign_seed_keypair(&sds[si]);
-                let mut sig = [0u8; 64];
+                let mut sig = [0xC3u8; 64];
                 let _ = crypto_sign_detached(&mut sig, &m, &sk);
                 dump(json!({"p": "ed25519-sign", "seed": hx(&sds[si]), "m": hx(&m), "ph": false, "pk": hx(&pk), "sig": hx(&sig)}));
                 let mut st2 = crypto_sign_init();
                 crypto_sign_update(&mut st2, &m);
-                let mut psig = [0u8; 64];
+                let mut psig = [0xC3u8; 64];
                 let _ = crypto_sign_final_create(st2, &mut psig, &sk);
                 dump(json!({"p": "ed25519-sign", "seed": hx(&sds[si]), "m": hx(&m), "ph": true, "pk": hx(&pk), "sig": hx(&psig)}));
             }
@@ -501,13 +501,13 @@ pub fn run() -> i32 {
             let psig = sodium::sign_ph_create(&[&m], &sk);
             let mm = m.clone();
             t.push((names[i][0], Box::new(move || {
-                let mut s = [0u8; 64];
+                let mut s = [0xC3u8; 64];
                 let _ = crypto_sign_detached(&mut s, &mm, &sk);
                 s.to_vec()
             })));
             let mm = m.clone();
             t.push((names[i][1], Box::new(move || {
-                let mut sm = vec![0u8; mm.len() + 64];
+                let mut sm = vec![0xC3u8; mm.len() + 64];
                 let _ = crypto_sign(&mut sm, &mm, &sk);
                 sm
             })));
@@ -515,7 +515,7 @@ pub fn run() -> i32 {
             t.push((names[i][2], Box::new(move || {
                 let mut st = crypto_sign_init();
                 crypto_sign_update(&mut st, &mm);
-                let mut s = [0u8; 64];
+                let mut s = [0xC3u8; 64];
                 let _ = crypto_sign_final_create(st, &mut s, &sk);
                 s.to_vec()
             })));
